@@ -25,6 +25,17 @@ def main():
     for b in P.get("rolling_acc", []):
         xx = np.array(b["xx"], dtype=b["dtype"])  # (y, x, t) cube
         da = xr.DataArray(xx, dims=("y", "x", "time"))
+        dim = b.get("dim")
+        if dim:                                           # roll along another dimension than time
+            others = [d for d in da.dims if d != dim]
+            try:
+                r = da.hdc.rolling.sum(b["ws"], dimension=dim, nodata=b["nd"])
+                r = r.transpose(*others, dim)
+                res.append(dict(dtype=str(r.dtype), dims=list(r.dims), out=r.values.astype("float64").tolist(),
+                                coord=[int(v) for v in r[dim].values] if dim in r.coords else None))
+            except Exception as e:  # noqa
+                res.append(dict(error="%s: %s" % (type(e).__name__, e)))
+            continue
         if b.get("attr"):
             da.attrs["nodata"] = b["nd"]
             r = da.hdc.rolling.sum(b["ws"])
